@@ -417,7 +417,13 @@ def _py_kernel(name, args):
             e = _val(lambda: a == b)
             ne = _val(lambda: a != b)
             e2 = _val(lambda: b == a)
-            out.append(f"{e} {ne} {e2}")
+            # value semantics must not depend on whether an operand has been used before
+            if type(a) in (sch.Forward, sch.Reverse) and abs(a.n1 - a.n0) <= 1000:
+                _val(lambda: (list(a), len(a), a.n0 in a))
+                _val(lambda: repr(a))
+            e3 = _val(lambda: a == b)
+            e4 = _val(lambda: b == a)
+            out.append(f"{e} {ne} {e2} {e3} {e4}")
         return out
     raise ValueError(name)
 
